@@ -24,7 +24,10 @@ theorem deTop_serTop (cfg : Cfg) (ver : Ver) (e : Endian) (t : Ty) (v : Val) :
     arbitrary bytes, at the alignment position it was written at, yields `v`, leaves exactly those bytes, and ends at
     the serializer's final position.
 
-    `wfVal` admits: all primitives, strings (valid UTF-8), enumerations (value among the literals), sequences and
+    `wfVal` admits: all primitives, strings (valid UTF-8), wide strings (UTF-16 code units without unpaired surrogates,
+    characters outside the BMP included), enumerations of any declared extensibility (value among the literals), FINAL unions
+    (discriminator of one of the six integer kinds the decoder accepts; several labels per branch; the default branch at any
+    position; the branch the writer set is the one the discriminator selects; unions nested in unions, collections of unions), sequences and
     arrays of primitive / string / enum / structure elements, final, appendable and mutable structures nested
     arbitrarily, optional and must-understand members, absent optional members, member ids in any order.
     It excludes exactly (suffix `_partial`; each exclusion is an open finding with a kernel-checked witness below and
@@ -54,6 +57,43 @@ theorem C09_roundtrip_partial (cfg : Cfg) (ver : Ver) (e : Endian) (x : Ext) (ms
       .ok v ⟨zeros (padCount (4 + (ser cfg ver e (.struct x ms) v 0).1.length)), (ser cfg ver e (.struct x ms) v 0).2⟩ := by
   rw [deTop_serTop]
   exact rt cfg ver e _ v hwf hsz 0 _
+
+/-- wide strings are inside the theorem: `"a😀b"` (a surrogate pair), the empty string, a sequence of wide strings -/
+def tyWDemo : Ty := .struct .appendable (.cons 0 false false .wstr (.cons 1 true false .wstr
+  (.cons 2 false false (.seq .wstr) (.cons 3 false false (.enum .i16 [1, 2] .appendable) .nil))))
+def valWDemo : Val := .struct [.list [.num 97, .num 0xD83D, .num 0xDE00, .num 98], .list [],
+  .list [.list [.num 0x20AC], .list [], .list [.num 0xDBFF, .num 0xDFFF]], .num 2]
+example : wfVal Cfg.fixed .v1 tyWDemo valWDemo = true ∧ wfVal Cfg.fixed .v2 tyWDemo valWDemo = true ∧
+    wfVal Cfg.asIs .v2 tyWDemo valWDemo = true := by decide +kernel
+/-- an unpaired surrogate is not a value of `String` (the harness cannot even build it); `wfVal` rejects it -/
+example : wfVal Cfg.fixed .v1 (.struct .final (.cons 0 false false .wstr .nil)) (.struct [.list [.num 0xD83D]]) = false := by
+  decide +kernel
+
+/-- final unions are inside the theorem: the default branch declared FIRST and a discriminator that selects the explicit case
+    declared after it (`<5,1:…>`), the default branch itself (`<9,2:…>`), a signed discriminator, a union in a sequence -/
+def tyUDemo : Ty := .struct .final (.cons 0 false false
+    (.union .i32 (.cons 2 [] true (.prim .i16) (.cons 1 [5, 7] false (.prim .i64) .nil)))
+  (.cons 1 false false (.prim .u32)
+  (.cons 2 false false (.seq (.union .i8 (.cons 1 [-1] false (.prim .u8) (.cons 3 [] true .wstr .nil)))) .nil)))
+def valUDemo1 : Val := .struct [.struct [.num 5, .num 1, .num 0x010203040506], .num 0xdeadbeef,
+  .list [.struct [.num 255, .num 1, .num 7], .struct [.num 4, .num 3, .list [.num 97]]]]
+def valUDemo2 : Val := .struct [.struct [.num 9, .num 2, .num 65534], .num 0xdeadbeef, .list []]
+example : wfVal Cfg.fixed .v1 tyUDemo valUDemo1 = true ∧ wfVal Cfg.fixed .v2 tyUDemo valUDemo1 = true ∧
+    wfVal Cfg.fixed .v1 tyUDemo valUDemo2 = true ∧ wfVal Cfg.asIs .v2 tyUDemo valUDemo2 = true := by decide +kernel
+/-- what `deserialize_funion_type` must not do: with the discriminator 5 the branch is the explicit case (member 1),
+    not the default branch (member 2) that is declared before it -/
+example : (tyUDemo, Bs.selIdx 5 (.cons 2 [] true (.prim .i16) (.cons 1 [5, 7] false (.prim .i64) .nil))).2 = some 1 := by
+  decide
+
+/-- **D80** (outside `wfVal`): a union without default branch whose discriminator selects no case is serialized
+    (discriminator only) and not decodable: `InvalidData`. Replay `rt 2 le SF{0:UFu8{1[5]:i64}} {<6>}`. -/
+theorem C09_union_no_branch_counterexample :
+    wfVal Cfg.fixed .v2 (.struct .final (.cons 0 false false (.union .u8 (.cons 1 [5] false (.prim .i64) .nil)) .nil))
+      (.struct [.struct [.num 6]]) = false ∧
+    (deTop Cfg.fixed (.struct .final (.cons 0 false false (.union .u8 (.cons 1 [5] false (.prim .i64) .nil)) .nil))
+      (serTop Cfg.fixed .v2 .le (.struct .final (.cons 0 false false (.union .u8 (.cons 1 [5] false (.prim .i64) .nil)) .nil))
+        (.struct [.struct [.num 6]]))).val? = none := by
+  decide +kernel
 
 theorem padCount_lt (n : Nat) : padCount n < 4 := by unfold padCount; omega
 theorem padCount_mod (n : Nat) : (n + padCount n) % 4 = 0 := by unfold padCount; omega
@@ -87,7 +127,7 @@ theorem C09_padding_recorded (cfg : Cfg) (ver : Ver) (e : Endian) (t : Ty) (v : 
 /-! ### non-vacuity -/
 def tyDemo : Ty := .struct .appendable (.cons 0 false false (.prim .u8) (.cons 1 true false (.prim .u64)
   (.cons 2 false false (.seq (.struct .final (.cons 0 false false .str (.cons 1 false false (.arr (.prim .i16) 2) .nil))))
-  (.cons 3 false false (.enum .i8 [-1, 3]) .nil))))
+  (.cons 3 false false (.enum .i8 [-1, 3] .final) .nil))))
 def valDemo : Val := .struct [.num 7, .num 0x1122334455667788,
   .list [.struct [.str [0x61, 0x62], .list [.num 1, .num 65535]]], .num 255]
 
